@@ -1,6 +1,5 @@
 (* C12 — what the client sees when the tree went over budget, and shadow = off at the client. *)
 From Coq Require Import Relations.
-From Equations Require Import Equations.
 From Sdns Require Import Common.Base Gen.C12 C12.Model C12.Skeleton C12.Proofs_ledger C12.Proofs_run C12.Proofs_skeleton.
 Open Scope N_scope.
 
